@@ -30,6 +30,7 @@ WITNESS = [
     (r"SearchSlice::", "engine_core", "inkayaku_engine_core", "c09_interrupted_search.rs", "witness_c09"),
     (r"attacks::Bitboard::", "board", "inkayaku_board", "c05_check_detection.rs", "witness_c05"),
     (r"hashtable::HashTable::", "append:engine_core/src/engine/table.rs", "inkayaku_engine_core", "c18_fifo_map.rs", "verif_witness_c18"),
+    (r"search_hash::", "append:engine_core/src/engine/search.rs", "inkayaku_engine_core", "c06_search_threading.rs", "verif_witness_c06"),
     (r"hashes::", "board", "inkayaku_board", "c06_hashes.rs", "witness_c06"),
     (r"eval::", "append:engine_core/src/engine/heuristic/simple.rs", "inkayaku_engine_core", "c11_symmetry.rs", "verif_witness_c11"),
     (r"heuristic::Heuristic::(score_from_value|is_checkmate)", "append:engine_core/src/engine/heuristic/simple.rs", "inkayaku_engine_core", "c11_symmetry.rs", "verif_witness_c11_mate"),
